@@ -789,6 +789,7 @@ pub fn write_evidence(prop: &str, tier: &str, seed: u64, b: &Batch, violations: 
         ("address_reuses_forced", m.totals.get("address_reuses_forced").copied().unwrap_or(0)),
         ("builders_abandoned_or_faulted", m.flags.get("C18.abandoned").copied().unwrap_or(0)),
         ("rootless_contexts_torn_down", m.cells.get("rootless").copied().unwrap_or(0)),
+        ("runs_with_a_leaked_write_guard", m.flags.get("C07.guard-leaked").copied().unwrap_or(0)),
     ]
     .into_iter()
     .collect();
